@@ -158,3 +158,128 @@ Proof.
     + rewrite (ind_split_strict a b c) by (try assumption; qo).
       field. split; apply Qcsub_neq0; congruence.
 Qed.
+
+(* ------------------------------------------------------------------ *)
+(* Boehm's identity, local form: s_0 <= ... <= s_{p+2}; removing the interior knot s_m
+   (1 <= m <= p+1) gives the coarse B-spline, which is the stated combination of the
+   two fine ones.  Division by zero is 0 as in the reference; the identity holds
+   nevertheless because the affected B-splines vanish identically. *)
+Definition remove_at (s : nat -> Qc) (m : nat) : nat -> Qc :=
+  fun j => if (j <? m)%nat then s j else s (S j).
+
+Lemma remove_at_lt s m j : (j < m)%nat -> remove_at s m j = s j.
+Proof. intros H. unfold remove_at. apply Nat.ltb_lt in H. rewrite H. reflexivity. Qed.
+Lemma remove_at_ge s m j : (m <= j)%nat -> remove_at s m j = s (S j).
+Proof. intros H. unfold remove_at. apply Nat.ltb_ge in H. rewrite H. reflexivity. Qed.
+
+Lemma mono_chain (s : nat -> Qc) n :
+  (forall j, (j < n)%nat -> s j <= s (S j)) -> forall a b, (a <= b)%nat -> (b <= n)%nat -> s a <= s b.
+Proof.
+  intros Hs a b Hab Hb. induction b as [|b IHb].
+  - replace a with 0%nat by lia. apply Qcle_refl.
+  - destruct (Nat.eq_dec a (S b)) as [->|Hn]; [apply Qcle_refl|].
+    eapply Qcle_trans; [apply IHb; lia|]. apply Hs. lia.
+Qed.
+
+Lemma NF_S t last q i x :
+  NF t last (S q) i x =
+    (x - t i) / (t (S (i + q)) - t i) * NF t last q i x
+    + (t (S (S (i + q))) - x) / (t (S (S (i + q))) - t (S i)) * NF t last q (S i) x.
+Proof.
+  cbn [NF]. replace (i + S q)%nat with (S (i + q)) by lia.
+  replace (S (i + q) + 1)%nat with (S (S (i + q))) by lia.
+  replace (i + 1)%nat with (S i) by lia. reflexivity.
+Qed.
+
+Lemma boehm_local last x : forall p s m,
+  (forall j, (j <= S p)%nat -> s j <= s (S j)) ->
+  (forall j, (j <= S (S p))%nat -> s j <= last) ->
+  (1 <= m <= S p)%nat ->
+  NF (remove_at s m) last p 0 x =
+    (s m - s 0%nat) / (s (S p) - s 0%nat) * NF s last p 0 x
+    + (s (S (S p)) - s m) / (s (S (S p)) - s 1%nat) * NF s last p 1 x.
+Proof.
+  induction p as [|q IH]; intros s m Hs Hl Hm.
+  - assert (m = 1%nat) by lia. subst m. rewrite !NF0_ind.
+    rewrite (remove_at_lt s 1 0) by lia. rewrite (remove_at_ge s 1 1) by lia.
+    apply ind_split; [apply Hs; lia | apply Hs; lia | apply Hl; lia].
+  - pose proof (mono_chain s (S (S (S q))) ltac:(intros; apply Hs; lia)) as Hmono.
+    set (s1 := fun j => s (S j)).
+    assert (Hn1 : NF s1 last q 0 x = NF s last q 1 x) by (apply NF_ext; intros; reflexivity).
+    assert (Hn2 : NF s1 last q 1 x = NF s last q 2 x) by (apply NF_ext; intros; reflexivity).
+    assert (Z0 : s 0%nat = s (S q) -> NF s last q 0 x = 0).
+    { intro E. apply NF_zero.
+      - intros j Hj. cbn [Nat.add]. apply Hs. lia.
+      - cbn [Nat.add]. replace (q + 1)%nat with (S q) by lia. exact E. }
+    assert (Z1 : s 1%nat = s (S (S q)) -> NF s last q 1 x = 0).
+    { intro E. apply NF_zero.
+      - intros j Hj. cbn [Nat.add]. apply Hs. lia.
+      - cbn [Nat.add]. replace (q + 1)%nat with (S q) by lia. exact E. }
+    assert (Z2 : s 2%nat = s (S (S (S q))) -> NF s last q 2 x = 0).
+    { intro E. apply NF_zero.
+      - intros j Hj. cbn [Nat.add]. apply Hs. lia.
+      - cbn [Nat.add]. replace (q + 1)%nat with (S q) by lia. exact E. }
+    (* the two degree-q pieces of the coarse function *)
+    assert (L0 : (m <= S q)%nat -> NF (remove_at s m) last q 0 x =
+              (s m - s 0%nat) / (s (S q) - s 0%nat) * NF s last q 0 x
+              + (s (S (S q)) - s m) / (s (S (S q)) - s 1%nat) * NF s last q 1 x).
+    { intro Hle. apply IH; [intros; apply Hs; lia | intros; apply Hl; lia | lia]. }
+    assert (L0' : m = S (S q) -> NF (remove_at s m) last q 0 x = NF s last q 0 x).
+    { intro E. apply NF_ext. intros j Hj. cbn [Nat.add]. apply remove_at_lt. lia. }
+    assert (L1 : (2 <= m)%nat -> NF (remove_at s m) last q 1 x =
+              (s m - s 1%nat) / (s (S (S q)) - s 1%nat) * NF s last q 1 x
+              + (s (S (S (S q))) - s m) / (s (S (S (S q))) - s 2%nat) * NF s last q 2 x).
+    { intro Hge.
+      assert (E : NF (remove_at s m) last q 1 x = NF (remove_at s1 (m - 1)) last q 0 x).
+      { apply NF_ext. intros j Hj. cbn [Nat.add]. unfold remove_at, s1.
+        destruct (Nat.ltb_spec (S j) m), (Nat.ltb_spec j (m - 1)); try lia; reflexivity. }
+      rewrite E. rewrite (IH s1 (m - 1)%nat).
+      - rewrite Hn1, Hn2. unfold s1. replace (S (m - 1)) with m by lia. reflexivity.
+      - intros j Hj. unfold s1. apply Hs. lia.
+      - intros j Hj. unfold s1. apply Hl. lia.
+      - lia. }
+    assert (L1' : m = 1%nat -> NF (remove_at s m) last q 1 x = NF s last q 2 x).
+    { intro E. apply NF_ext. intros j Hj. cbn [Nat.add]. rewrite remove_at_ge by lia. reflexivity. }
+    rewrite !NF_S. cbn [Nat.add].
+    rewrite (remove_at_lt s m 0) by lia.
+    rewrite (remove_at_ge s m (S (S q))) by lia.
+    pose proof (Hmono 0 1 ltac:(lia) ltac:(lia))%nat as M01.
+    pose proof (Hmono 1 2 ltac:(lia) ltac:(lia))%nat as M12.
+    pose proof (Hmono 1 (S (S q)) ltac:(lia) ltac:(lia))%nat as M1p.
+    pose proof (Hmono (S (S q)) (S (S (S q))) ltac:(lia) ltac:(lia))%nat as Mpp.
+    pose proof (Hmono (S q) (S (S q)) ltac:(lia) ltac:(lia))%nat as Mqp.
+    pose proof (Hmono 0 (S q) ltac:(lia) ltac:(lia))%nat as M0q.
+    pose proof (Hmono 2 (S (S (S q))) ltac:(lia) ltac:(lia))%nat as M2e.
+    destruct (Nat.eq_dec m (S (S q))) as [Em|Em]; destruct (Nat.eq_dec m 1) as [E1|E1]; try lia.
+    + (* m = p+1: the last knot of the first fine function is the new one *)
+      rewrite (remove_at_lt s m (S q)) by lia. rewrite (remove_at_lt s m 1) by lia.
+      rewrite (L0' Em), (L1 ltac:(lia)). subst m.
+      destruct (Qc_eq_dec (s 1%nat) (s (S (S q)))) as [A|A].
+      * rewrite (Z1 A).
+        destruct (Qc_eq_dec (s 0%nat) (s (S (S q)))) as [B|B].
+        -- rewrite (Z0 ltac:(qo)). ring.
+        -- unfold Qcdiv. generalize (/ (s (S q) - s 0%nat)) (/ (s (S (S (S q))) - s 2%nat))
+                                    (/ (s (S (S (S q))) - s 1%nat)) (/ (s (S (S q)) - s 1%nat)).
+           intros. field. apply Qcsub_neq0. congruence.
+      * unfold Qcdiv. generalize (/ (s (S q) - s 0%nat)) (/ (s (S (S (S q))) - s 2%nat)).
+        intros. field. repeat split; apply Qcsub_neq0; intro; qo.
+    + (* m = 1: the first knot of the second fine function is the new one *)
+      rewrite (remove_at_ge s m (S q)) by lia. rewrite (remove_at_ge s m 1) by lia.
+      rewrite (L0 ltac:(lia)), (L1' E1). subst m.
+      destruct (Qc_eq_dec (s 1%nat) (s (S (S q)))) as [A|A].
+      * rewrite (Z1 A).
+        destruct (Qc_eq_dec (s 1%nat) (s (S (S (S q))))) as [B|B].
+        -- rewrite (Z2 ltac:(qo)). ring.
+        -- unfold Qcdiv. generalize (/ (s (S q) - s 0%nat)) (/ (s (S (S (S q))) - s 2%nat))
+                                    (/ (s (S (S q)) - s 0%nat)) (/ (s (S (S q)) - s 1%nat)).
+           intros. field. apply Qcsub_neq0. congruence.
+      * unfold Qcdiv. generalize (/ (s (S q) - s 0%nat)) (/ (s (S (S (S q))) - s 2%nat)).
+        intros. field. repeat split; apply Qcsub_neq0; intro; qo.
+    + (* interior *)
+      rewrite (remove_at_ge s m (S q)) by lia. rewrite (remove_at_lt s m 1) by lia.
+      rewrite (L0 ltac:(lia)), (L1 ltac:(lia)).
+      destruct (Qc_eq_dec (s 1%nat) (s (S (S q)))) as [A|A].
+      * rewrite (Z1 A). ring.
+      * unfold Qcdiv. generalize (/ (s (S q) - s 0%nat)) (/ (s (S (S (S q))) - s 2%nat)).
+        intros. field. repeat split; apply Qcsub_neq0; intro; qo.
+Qed.
